@@ -218,6 +218,8 @@ type inst struct {
 	js    *jschema.JSchema
 	rs    *regex.RSchema
 	en    *enum.Enum
+	ruleObjs []*enum.Enum    // the rule objects registered with js, in declared order
+	typeObjs []schema.Schema // the type objects registered with js, in declared order
 	built bool
 	dead  bool // an injected failure hit this object: no further oracle on it
 	nEx   int  // number of Example() calls made on an rschema
@@ -273,14 +275,20 @@ func (in *inst) rawBuild(op *Op) outcome {
 			tperm = identity(len(p.Types))
 		}
 		rres := make([]string, len(p.Rules))
+		in.ruleObjs = make([]*enum.Enum, len(p.Rules))
 		for _, i := range rperm {
 			r := p.Rules[i]
-			rres[i] = safeStr(func() string { return errText(in.js.AddRule(r.Name, enum.New(r.Name, r.Text))) })
+			ro := enum.New(r.Name, r.Text)
+			in.ruleObjs[i] = ro
+			rres[i] = safeStr(func() string { return errText(in.js.AddRule(r.Name, ro)) })
 		}
 		tres := make([]string, len(p.Types))
+		in.typeObjs = make([]schema.Schema, len(p.Types))
 		for _, i := range tperm {
 			t := p.Types[i]
-			tres[i] = safeStr(func() string { return errText(in.js.AddType(t.Name, newSchemaFor(t))) })
+			to := newSchemaFor(t)
+			in.typeObjs[i] = to
+			tres[i] = safeStr(func() string { return errText(in.js.AddType(t.Name, to)) })
 		}
 		var sb strings.Builder
 		for i, r := range p.Rules {
@@ -360,6 +368,84 @@ func (in *inst) rawCall(kind string, sharedObj bool) (key string, out outcome) {
 			}
 			b, err := openapi.NewSchemaObject(s).MarshalJSON()
 			return key, bytesOutcome(b, err)
+		case "rules":
+			// The rule objects stay valid objects in the caller's hands after they
+			// were registered: what they report must not depend on what the schema
+			// they were given to did with them.
+			if in.js == nil || len(in.ruleObjs) == 0 {
+				return key, outcome{obs: "n/a"}
+			}
+			type rr struct {
+				head string
+				an   schema.ASTNode
+				vv   []enum.Value
+			}
+			var rs []rr
+			for i, ro := range in.ruleObjs {
+				if ro == nil {
+					continue
+				}
+				n, e1 := ro.Len()
+				e2 := ro.Check()
+				an, e3 := ro.GetAST()
+				vv, e4 := ro.Values()
+				rs = append(rs, rr{head: "rule " + p.Rules[i].Name + ": len=" + valErr(strconv.FormatUint(uint64(n), 10), e1) + " check=" + errText(e2) +
+					" asterr=" + errText(e3) + " valerr=" + errText(e4), an: an, vv: vv})
+			}
+			f := func() string {
+				var sb strings.Builder
+				for i := range rs {
+					sb.WriteString(rs[i].head + " ast=" + astText(&rs[i].an) + " values=" + enumValuesText(rs[i].vv) + "\n")
+				}
+				return sb.String()
+			}
+			return key, outcome{obs: f(), live: f}
+		case "types":
+			// Likewise the type objects. They are asked after the schema they were
+			// registered with has been compiled (compilation completes the types'
+			// nodes in place, by design), so the position of this call among the
+			// other calls does not matter.
+			if in.js == nil || len(in.typeObjs) == 0 {
+				return key, outcome{obs: "n/a"}
+			}
+			_ = s.Check()
+			type tr struct {
+				head string
+				an   schema.ASTNode
+				ex   []byte
+				used []string
+			}
+			var ts []tr
+			for i, to := range in.typeObjs {
+				if to == nil {
+					continue
+				}
+				n, e1 := to.Len()
+				e2 := to.Check()
+				an, e3 := to.GetAST()
+				used, e4 := to.UsedUserTypes()
+				head := "type " + p.Types[i].Name + ": len=" + valErr(strconv.FormatUint(uint64(n), 10), e1) + " check=" + errText(e2) +
+					" asterr=" + errText(e3) + " usederr=" + errText(e4)
+				var ex []byte
+				if _, isJ := to.(*jschema.JSchema); isJ {
+					// (a regex type's Example() is stateful by design and not asked here)
+					var e5 error
+					ex, e5 = to.Example()
+					head += " exerr=" + errText(e5)
+				} else if rt, ok := to.(*regex.RSchema); ok {
+					pt, e5 := rt.Pattern()
+					head += " pattern=" + valErr(strconv.Quote(pt), e5)
+				}
+				ts = append(ts, tr{head: head, an: an, ex: ex, used: used})
+			}
+			f := func() string {
+				var sb strings.Builder
+				for i := range ts {
+					sb.WriteString(ts[i].head + " ast=" + astText(&ts[i].an) + " ex=" + strconv.Quote(string(ts[i].ex)) + " used=" + stringsText(ts[i].used) + "\n")
+				}
+				return sb.String()
+			}
+			return key, outcome{obs: f(), live: f}
 		case "deref":
 			if err := s.Check(); err != nil {
 				return key, outcome{obs: "n/a: " + errText(err)}
@@ -504,7 +590,7 @@ func writeInformer(sb *strings.Builder, inf openapi.SchemaInformer, depth int) {
 func scriptKinds(kind string) []string {
 	switch kind {
 	case "jschema":
-		return []string{"used", "len", "check", "ast", "example", "openapi", "deref"}
+		return []string{"used", "len", "check", "ast", "example", "openapi", "deref", "rules", "types"}
 	case "rschema":
 		return []string{"used", "len", "check", "ast", "pattern", "example", "example", "example", "example", "openapi", "deref"}
 	case "enum":
